@@ -94,7 +94,10 @@ def response_after_rejection(c, n2, sign_header):
     pos = c.concretize(c.int("pos", 0, 3))
     where = [n - 1, 30, n - SIG - 8 + 2, 3][pos]  # a signature octet, a sealed octet, the trailer's pad_length, the header's flags
     items = list(V.seq_items(good))
-    items[where] = c.int("mut", 0, 255)
+    orig = items[where]
+    mut = c.int("mut", 0, 255)
+    c.assume(mut != orig)  # the first reply really is altered (the unaltered one is the subject of the other harnesses)
+    items[where] = mut
     first = V.SymByteArray(items) if c.symbolic else bytearray(items)
     ph = c.call(_pdu.PDUHeader.unpack, (V.SymBytes(items[:16]).norm() if c.symbolic else bytes(items[:16])))
     rejected = False
